@@ -7,7 +7,6 @@ import (
 	"fmt"
 	"path/filepath"
 	"regexp"
-	"sort"
 	"strings"
 	"time"
 
@@ -40,6 +39,9 @@ type c20Scenario struct {
 	Orders  []orderSpec `json:"orders"`
 	History [][]histStep `json:"history"` // per order: interpreters created earlier in the process
 	Budget  int64       `json:"budget"`
+	// NativeConfirm: child mode of the soundness guard - run the program natively N times in fresh interpreters of
+	// this fresh process and report a violation iff at least two distinct outcomes are seen
+	NativeConfirm bool `json:"native_confirm,omitempty"`
 }
 
 func applyOrder(o orderSpec) {
@@ -220,6 +222,33 @@ func execC20(body json.RawMessage) *kernel.Result {
 	fail := func(clause, site, f string, a ...interface{}) {
 		res.Violate("C20", "C20."+clause, site, fmt.Sprintf(f, a...))
 	}
+	if sc.NativeConfirm {
+		applyOrder(orderSpec{Kind: "native"})
+		seen := map[string]int{}
+		var keys []string
+		deadline := time.Now().Add(4 * time.Second)
+		n := 0
+		for n < 400 && (n < 30 || time.Now().Before(deadline)) {
+			out := c20RunOnce(&sc, res)
+			if out.Budget {
+				break
+			}
+			k := showOut(out)
+			if seen[k] == 0 {
+				keys = append(keys, k)
+			}
+			seen[k]++
+			n++
+			if len(seen) >= 2 && n >= 20 {
+				break
+			}
+		}
+		if len(seen) >= 2 {
+			first, second := keys[0], keys[1]
+			fail("D-same", siteName(sc.Name), "program %q: %d native runs in fresh interpreters of a fresh process gave %d distinct outcomes, e.g. (run 1) %s  |vs|  %s", sc.Name, n, len(seen), trunc(first, 300), trunc(second, 300))
+		}
+		return res
+	}
 	var first c20Out
 	var firstDesc string
 	candidate := ""
@@ -255,36 +284,38 @@ func execC20(body json.RawMessage) *kernel.Result {
 		return res
 	}
 	// Soundness guard: the seam explores every order the Go specification allows, the running runtime
-	// realises fewer. Report only what the unmodified runtime can exhibit: re-run natively in fresh interpreters.
+	// realises fewer. Report only what the unmodified runtime can exhibit: re-run natively, in fresh interpreters
+	// of a FRESH process (so that "first interpreter of the process" is among the runs compared).
 	applyOrder(orderSpec{Kind: "native"})
-	seen := map[string]int{}
-	var keys []string
-	deadline := time.Now().Add(4 * time.Second)
-	n := 0
-	for n < 400 && (n < 30 || time.Now().Before(deadline)) {
-		out := c20RunOnce(&sc, res)
-		if out.Budget {
-			break
-		}
-		k := showOut(out)
-		if seen[k] == 0 {
-			keys = append(keys, k)
-		}
-		seen[k]++
-		n++
-		if len(seen) >= 2 && n >= 20 {
-			break
+	conf := sc
+	conf.NativeConfirm = true
+	cb, _ := json.Marshal(conf)
+	child := kernel.RunChild(&kernel.Scenario{Property: "C20", Part: c20PartOf(sc.Name), Body: cb})
+	confirmed := false
+	for _, v := range child.Violations {
+		if v.Clause == "C20.D-same" {
+			confirmed = true
+			res.Violate("C20", v.Clause, v.Site, v.Detail+" Simulated schedules: "+trunc(candidate, 500))
 		}
 	}
-	if len(seen) >= 2 {
-		sort.Strings(keys)
-		fail("D-same", siteName(sc.Name), "program %q: %d native runs in fresh interpreters gave %d distinct outcomes, e.g. %s  |vs|  %s. Simulated schedules: %s", sc.Name, n, len(seen), trunc(keys[0], 300), trunc(keys[1], 300), trunc(candidate, 500))
-	} else {
+	res.Execs += child.Execs
+	if !confirmed {
 		res.Probe("spec_level_only")
 	}
 	return res
 }
 
+func c20PartOf(name string) string {
+	switch {
+	case strings.HasPrefix(name, "generated-"):
+		return "generated"
+	case strings.HasSuffix(name, ".zy"):
+		return "corpus"
+	}
+	return "targeted"
+}
+
+func trunc2(s string, n int) string { return trunc(s, n) }
 
 func histLen(h [][]histStep, i int) int {
 	n := 0
